@@ -7,6 +7,7 @@ import (
 	"go/token"
 	"go/types"
 	"math"
+	"path"
 	"sort"
 	"strconv"
 	"strings"
@@ -1657,6 +1658,22 @@ func (ev *Evaluator) native(pos token.Pos, fn *types.Func, recv Value, args []Va
 			return Tuple{FConst(0), ErrVal{Msg: S("parsefloat")}}, true
 		}
 		return Tuple{FConst(f), Nil{}}, true
+	case "path.Join", "path/filepath.Join":
+		var parts []string
+		for _, a := range args {
+			s, ok := a.(Str)
+			if !ok || !s.IsConst() {
+				ev.fail(pos, "Join of symbolic path")
+			}
+			parts = append(parts, s.Const())
+		}
+		return S(path.Join(parts...)), true
+	case "strings.ReplaceAll":
+		a, b, cc := argStr(0), argStr(1), argStr(2)
+		if !a.IsConst() || !b.IsConst() || !cc.IsConst() {
+			ev.fail(pos, "ReplaceAll of symbolic string")
+		}
+		return S(strings.ReplaceAll(a.Const(), b.Const(), cc.Const())), true
 	case "strings.Repeat":
 		s, n := argStr(0), argLin(1)
 		if s.IsConst() && n.IsConst() && n.C >= 0 {
